@@ -93,7 +93,17 @@ impl RegexMatcher {
         let syntax = match regex_type {
             RegexType::Emacs => *Syntax::emacs(),
             RegexType::Grep => *Syntax::grep(),
-            RegexType::PosixBasic => *Syntax::posix_basic(),
+            RegexType::PosixBasic => {
+                // As in GNU find, `\|`, `\+` and `\?` are operators in this
+                // syntax as well: it is the grep one with the options of the
+                // POSIX basic one.
+                let basic = Syntax::posix_basic();
+                let mut syntax = *Syntax::grep();
+                syntax.enable_operators(basic.operators());
+                syntax.set_behavior(basic.behavior());
+                syntax.set_options(basic.options());
+                syntax
+            }
             RegexType::PosixExtended => *Syntax::posix_extended(),
         };
 
